@@ -154,6 +154,17 @@ def check(case, ctx):
         if r is not None:
             ctx.le("q_rot(q, v) = R(q)^T v (inverse rotation)", np.linalg.norm(r - Rq.T @ v) / nv, TOL_ROT,
                    {"got": r, "ref": Rq.T @ v}, route="orientation.q_rot")
+    # rotation through the matrix forms of the product: vec(L(q) R(q*) (0, v)) and vec(L(q) L(V) q*) with V = (0, v) kept as given (|v| != 1)
+    r = "Quaternion.rotate(3,)"
+    Vq = ahrs.Quaternion(np.r_[0.0, v], versor=False)
+    out = call(lambda: (np.asarray(Qo.mult_L(), float) @ np.asarray(ahrs.Quaternion(rq.qconj(q)).mult_R(), float) @ np.r_[0.0, v],
+                        np.asarray(Qo.mult_L(), float) @ np.asarray(Vq.mult_L(), float) @ rq.qconj(q),
+                        np.asarray(Vq.mult_R(), float) @ q, np.asarray(Vq.mult_L(), float) @ q))
+    if ctx.returned(out, clause="no-exception[mult_L / mult_R]", route=r):
+        s1, s2, rv_, lv_ = out.value
+        ctx.le("vec(L(q) R(q*) (0, v)) = R v", np.linalg.norm(s1[1:] - Rq @ v) / nv, TOL_ROT, {"got": s1, "ref": Rq @ v}, route=r)
+        ctx.le("vec(L(q) L(V) q*) = R v for the pure quaternion V = (0, v), |v| != 1", np.linalg.norm(s2[1:] - Rq @ v) / nv, TOL_ROT, {"got": s2, "ref": Rq @ v}, route=r)
+        ctx.le("R(V) q = q V and L(V) q = V q (matrix forms of a non-unit quaternion)", max(np.abs(rv_ - rq.qmul(q, np.r_[0.0, v])).max(), np.abs(lv_ - rq.qmul(np.r_[0.0, v], q)).max()) / nv, TOL_ROT, route=r)
     # an object built non-normalised and normalised in place, handed to the routes that read the object as an array
     r = "normalize()->routes"
     scale = 0.1 + 7.0 * abs(v[0]) / nv
